@@ -244,6 +244,10 @@ def run_catalogue(prop, repo="/repo", seed=1, only=None, log=None):
         if only and name not in only:
             continue
         r = run_one(prop, repo, seed, "seeded", name, lambda root: apply_patch(root, patch), meta.get("title", ""))
+        if r["status"] == "survived" and meta.get("not_caught_reason"):
+            # judged not to be a violation of the property as stated (reason in meta.json and DESIGN.md 14.5)
+            r["status"] = "outside_property"
+            r["detail"] = meta["not_caught_reason"]
         results.append(r)
         if log:
             log("[%s] seeded %-28s %s (%ss)" % (prop, name, r["status"], r.get("wall_s", "-")))
@@ -251,6 +255,7 @@ def run_catalogue(prop, repo="/repo", seed=1, only=None, log=None):
     return {"run": len(applied), "caught": len([r for r in applied if r["status"] == "caught"]),
             "survived": [r["id"] for r in applied if r["status"] == "survived"],
             "stale": [r["id"] for r in results if r["status"] == "stale"],
+            "outside_property": [r["id"] for r in results if r["status"] == "outside_property"],
             "errors": [r["id"] for r in results if r["status"] == "error"],
             "details": results}
 
